@@ -202,10 +202,8 @@ SubjectOf(id) == CertSpec[id][1]     \* the responder name a response carries
 \* the issuer when none is embedded), and additionally always the issuer itself: a response
 \* that *names* the issuer as responder while somebody else signed it.
 Scenarios ==
-  {[signer |-> k, embedded |-> e, responder |-> r, verifier |-> v] :
-     k \in {"KI", "KR", "KX"}, e \in EmbeddedIds, v \in {"I", "O"}, r \in {"I", "R", "Ro", "Rf", "Rs", "Rx"} \cup NameCollisionIds}
-  \cap {sc \in [signer : {"KI", "KR", "KX"}, embedded : EmbeddedIds, responder : CertIds, verifier : {"I", "O"}] :
-          sc.responder = "I" \/ sc.responder = sc.embedded}
+  {sc \in [signer : {"KI", "KR", "KX"}, embedded : EmbeddedIds, responder : CertIds, verifier : {"I", "O"}] :
+     sc.responder = "I" \/ sc.responder = sc.embedded}
 
 ScVerdict(sc) == Verdict(Resp(sc), KeyOfCert(sc.verifier))
 
